@@ -22,7 +22,7 @@ LEVEL_TEXT = ("Decides on every path of the type-checked MIR of the current tree
               "oneOf only when every element passed; each only for the exact shape (all other subschema fields None), with dependencies and the type predicate handed on unchanged; "
               "(R6) validate_tags returns exactly the specified verdict for every visible x policy x tag-count x "
               "allow_other_tags x membership shape. Not decided: the global converse (every accepted table is unambiguous and every endpoint reachable) as one theorem over all "
-              "registration sequences - the rules check its premises, not the induction; type_is_scalar / type_is_string_enum over all schemas (schemars level) beyond the subschema clause R5b.")
+              "registration sequences - the rules check its premises, not the induction; type_is_scalar / type_is_string_enum over all schemas (schemars level) beyond the subschema clause R5b. Also (R5, vpp): validate_path_parameters returns Ok only through the `sets are equal` edge of the comparison of the template's variables with the handler's path parameters.")
 LEVEL_NOTE = ("Trusts rustc MIR construction, the extractor, engine dominators/slices, rules/absint.py, std collections (BTreeMap::entry/get_or_insert, BTreeSet::contains/insert, HashSet equality, "
               "HashMap::contains_key) and panics as refusal. R4E2 re-runs rule C05.E2 of rules/c05.py (exhaustive interpretation of overlaps_with over all weak orders) under this property's id; "
               "it assumes semver::Version's order is total and unbounded below.")
@@ -1460,7 +1460,17 @@ def r6_tag_policy(ctx):
     ctx.check(R, "count-compared-with-small-constants-only", all(c <= 2 for c in consts), "integer constants the tag count is compared with: %s (representatives 0..3 cover every outcome)" % sorted(consts), vt)
 
 
-RULES = [("C02.R1", r1_validation_before_insert), ("C02.R2", r2_conflict_table), ("C02.R3", r3_shape), ("C02.R4", r4_version_conflicts), ("C02.R4E2", r4e2_overlap_table),
+def r7_versioned_routes_refused_on_unversioned_server(ctx):
+    """`whenever registration succeeds no request can match two endpoints`: on a server without a version policy every request matches every
+    version range, so two endpoints that differ only in their ranges are ambiguous there -- the router remembers (stickily) that it holds a
+    version-restricted endpoint and such a server refuses to start.  This is C01.R7, re-evaluated here (adversary change C02-K: the flag
+    became a plain assignment, so an unrestricted endpoint registered last cleared it)."""
+    from . import c01
+    from .lib_c01 import Renamed
+    c01.r7_versioned_routes_need_versioned_server(Renamed(ctx, "C02.R7", "a router holding any version-restricted endpoint says so, whatever was registered after it, and an unversioned server refuses it"))
+
+
+RULES = [("C02.R7", r7_versioned_routes_refused_on_unversioned_server), ("C02.R1", r1_validation_before_insert), ("C02.R2", r2_conflict_table), ("C02.R3", r3_shape), ("C02.R4", r4_version_conflicts), ("C02.R4E2", r4e2_overlap_table),
          ("C02.R5", r5_parameter_rules), ("C02.R5b", r5b_scalar_check_is_total), ("C02.R6", r6_tag_policy)]
 
 RT = "dropshot/src/router.rs"
